@@ -74,11 +74,6 @@ theorem walk_visits_exactly_getAll {σ : Type} (f : σ → J → σ) (p : Path) 
 
 /-! ## set: the value is there afterwards, everything apart stays (definite paths) -/
 
-theorem set_eq_setAt_of_definite (v : J) (p : Path) (j : J) (hd : definite p = true) :
-    set v p j = setAt v false p j := by
-  unfold set
-  simp [getLast?_ne_desc_of_definite p hd]
-
 /-- After a successful `bag-set` at a path of keys and indices, `bag-get` of that path returns
     the value (also when the set had to add members / arrays on the way). -/
 theorem get_set_same (v : J) (p : Path) (j j' : J) (hd : definite p = true)
@@ -162,6 +157,35 @@ theorem get_remove_disjoint (pre : Path) (last : Step) (q : Path) (j j' : J) (hd
   rw [remove_definite pre last j hd hl] at h
   cases h
   exact modifyAt_removeStep_apart last pre hd hl q j ha
+
+/-! ## wildcard versions over get-all -/
+
+/-- A set whose path ends in a wildcard below a definite prefix: afterwards every node the path
+    selects is the value, and there are as many as before. -/
+theorem set_wild_all (v : J) (pre : Path) (j j' : J) (hd : definite pre = true)
+    (h : set v (pre ++ [.wild]) j = .ok j') :
+    (∀ x ∈ getAll (pre ++ [.wild]) j', x = v) ∧
+      (getAll (pre ++ [.wild]) j').length = (getAll (pre ++ [.wild]) j).length := by
+  have hset : set v (pre ++ [.wild]) j = setAt v false (pre ++ [.wild]) j := by
+    unfold set; simp
+  rw [hset] at h
+  obtain ⟨rfl, hsome⟩ := setAt_wild_eq_modifyAt v pre hd j j' h
+  rw [getAll_modifyAt _ pre hd, getAll_append_definite pre hd]
+  cases hg : get pre j with
+  | none => simp [hg] at hsome
+  | some c =>
+    simp only [Option.toList, List.flatMap_cons, List.flatMap_nil, List.append_nil, getAll_wild]
+    exact children_wildSet v c
+
+/-- Removing with a final wildcard leaves nothing for the path to select. -/
+theorem remove_wild_empty (pre : Path) (j j' : J) (hd : definite pre = true)
+    (h : remove (pre ++ [.wild]) j = .ok j') : getAll (pre ++ [.wild]) j' = [] := by
+  rw [remove_definite_pre pre .wild j hd (by simp)] at h
+  cases h
+  rw [getAll_modifyAt _ pre hd]
+  cases get pre j <;> simp [getAll_wild_removeStep]
+
+example : set (.int 0) [.key "a", .wild] (obj [("a", arr [.int 1, .str "x"])]) = .ok (obj [("a", arr [.int 0, .int 0])]) := by rfl
 
 /-! ## bag → native Lisp → bag -/
 
